@@ -105,12 +105,14 @@ theorem C07_channel_capacity : Facts.newHeadersCap = 10000 := by decide
 /-- **C07 (on a reorganisation: all headers of the new best chain above the fork point, lowest
     first).** The previous and the new best chain share a prefix ending in the fork point `p`; the
     new chain continues with exactly the announced headers; these are a non-empty chain linked by
-    previous-block hash starting at `p`; no two headers of the new chain share a hash. -/
+    previous-block hash starting at `p`; no two headers of the new chain share a hash; and `p` is
+    the TRUE fork point — no announced header was on the previous best chain (nothing is announced
+    twice, the announcement is minimal). -/
 theorem C07_reorg_shape (r : Repo) (hs : StreamWF r) (r2 : Repo) (evs : List Hdr)
     (h : reselect r = .ok (r2, true, evs))
     (cOld cNew : List Hdr) (hold : IsChain r.arena r.longest cOld) (hnew : IsChain r.arena r2.longest cNew) :
     ∃ (pre : List Hdr) (p : Hdr) (rest : List Hdr), cOld = pre ++ [p] ++ rest ∧ cNew = pre ++ [p] ++ evs ∧
-      Spec.Linked p evs ∧ ((pre ++ [p] ++ evs).map (·.id)).Nodup ∧ evs ≠ [] :=
+      Spec.Linked p evs ∧ ((pre ++ [p] ++ evs).map (·.id)).Nodup ∧ evs ≠ [] ∧ (∀ e ∈ evs, e ∉ cOld) :=
   reselect_reorg_shape r hs.chain r2 evs hs.below h cOld cNew hold hnew
 
 /-- **C07 (headers that never enter the best chain are never announced, reorganisation case)**:
